@@ -206,6 +206,8 @@ const callFormsFile = `{namespace pr}
 {template .funcforms}
 {randomInt(1)}{randomInt(1) + length(keys(augmentMap(['a': 1], ['b': 2])))}|{round(2.567, 2)}|{round(2.5)}|{floor(2.5)}|{ceiling(2.5)}|{min(1, 2.5)}|{max(1, 2)}|{strContains('abc', 'b')}|{length(range(3))}|{hasData()}|{isNonnull($m)}
 {foreach $x in range(1, 7, 2)}{index($x)}{isFirst($x)}{isLast($x)}{/foreach}
+{let $r1: range(5) /}{let $r2: range(5) /}{let $k1: keys(['a': 1]) /}
+[fresh:{range(3) == range(4) ? 'S' : 'D'}{range(300) == range(1000) ? 'S' : 'D'}{range(2, 9) == range(2, 9) ? 'S' : 'D'}{$r1 == $r2 ? 'S' : 'D'}{$k1 == keys(['a': 1]) ? 'S' : 'D'}{augmentMap(['a': 1], ['b': 2]) == augmentMap(['a': 1], ['b': 2]) ? 'S' : 'D'}{$r1 == $r1 ? 'S' : 'D'}]
 {/template}
 /** @param? m */
 {template .dirforms}
@@ -219,6 +221,15 @@ const callFormsFile = `{namespace pr}
  * @param? extra
  */
 {template .show}({$a ?: 'na'},{$s ?: 'ns'},{$extra ?: 'nx'}){/template}
+/**
+ * @param? name
+ * @param? count
+ * @param? title
+ * @param? tags
+ * @param? inner
+ * @param? unitPrice
+ */
+{template .structshow}<{$name ?: 'nn'}/{$count ?: 'nc'}/{$title ?: 'nt'}/{$tags ? length($tags) : 'x'}/{$inner ? $inner.depth : 'ni'}/{$unitPrice ?: 'nu'}>{/template}
 `
 
 const customFile = "{namespace cust}\n/** @param? a */\n{template .t}\n{verifTwice($a ?: 'q')|verifBang}{$a|verifBang|truncate:3}\n{/template}\n"
@@ -520,6 +531,15 @@ func init() {
 				} else if err != nil {
 					failing++
 					ctx.Obs("failing_renders", 1)
+				}
+				if op.kind == "render" && op.tmpl == "pr.funcforms" && err == nil {
+					// every call of a list- or map-valued function yields a value of its own (equality of lists and maps
+					// is identity): six comparisons of two results, one of a value with itself
+					ctx.Obs("fresh_results_compared", 1)
+					if !strings.Contains(strings.ReplaceAll(out, "!", ""), "[fresh:DDDDDDS]") { // (obligatory directives of some configurations append "!")
+						return fw.Result{Verdict: fw.Violated, Key: "function-results-share-identity", Case: map[string]interface{}{"files": files, "history": hist, "config": c08Config},
+							Msg: fmt.Sprintf("operation %d (%s): two calls of range / keys / augmentMap compared equal, or a list differs from itself: %q (want [fresh:DDDDDDS])", k, op, fw.Trim(out, 300))}
+					}
 				}
 				if op.kind == "render" && (op.tmpl == "twa.t" || op.tmpl == "twb.t") && err == nil {
 					// known by construction: three literals under three directives, then the obligatory ones of this configuration
